@@ -191,6 +191,28 @@ CHECKS.update({
 NOT_YET = "check not built yet in this revision of /verif (work in progress; see DESIGN.md section 3 for the planned obligations)"
 
 
+# obligations added while strengthening against seeded changes (rounds 4-5): appended to the level text of the check
+ALSO = {
+    "C01": "the general mass-action class initialised directly for every order 0..3 (not only through Model); reactant lists with non-adjacent repeats",
+    "C02": "every expression is parsed a second time under the reversed species numbering; the users of the evaluator (general rate in its four modes, rules with and without a volume) replayed on the real build",
+    "C03": "a real model through the real plain interface with a net rate of either sign; missing parameter at every position; create_reaction leaves its arguments unmodified",
+    "C04": "general rates over n-ary min / max / abs; one parameter dictionary shared by several reactions",
+    "C06": "rules whose targets are all parameters never write a species (plain and volume rule pass)",
+    "C07": "first row = initial condition with rules applied: the real interface's rule passes over rules that mention t and volume; initialisation obligations of the delay+volume loop",
+    "C08": "rule / propensity / delay objects are stateless across executions; one model simulated twice on one stream",
+    "C10": "simulators without delay support (plain and volume loop) on delay models: both parts at the firing time, stoichiometric matrices untouched; queue re-timing when a queue is handed to the next simulation",
+    "C11": "general rates that carry their own volume scaling (volume inside quotients and powers) and the expression nodes' volume-aware evaluation; the division model replayed against the real class at start times other than 0",
+    "C12": "programs with several delayed / undelayed reactions in every order",
+    "C13": "species carrying both initialAmount and initialConcentration (second attribute written into the document text), hasOnlySubstanceUnits both ways",
+    "C14": "delayed mass-action reactions (three families, repeated reactants); exported parameter values equal the model's to the last digit",
+    "C16": "prior dictionary ordered differently from the parameter vector",
+    "C17": "lineage models with every kind of lineage rule / event copied before and after initialisation (same-seed behaviour); Schnitz objects with a mother outside the pickled set",
+    "C18": "the public wrappers as functions of the model's current parameters (query, set_params, query); a real model through the real interface with a net rate of either sign",
+    "C19": "division in the last grid interval; lineage queue step with an abstract single-cell simulation",
+    "C20": "copy followed by an operation on one of the two queues; re-timing keeps pending entries at their distance",
+}
+
+
 def main():
     props = [json.loads(l) for l in open(os.path.join(HERE, "properties.jsonl"))]
     hooks = []
@@ -213,7 +235,7 @@ def main():
             "evidence_file": "evidence/%s.json" % pid,
             "replay_cmd_template": "./vf replay {path}",
             "engine": "pyxsym",
-            "level_claimed": {"category": c["level"], "text": c["text"], "design_ref": c["design"]},
+            "level_claimed": {"category": c["level"], "text": c["text"] + (" Also: " + ALSO[pid] + "." if pid in ALSO else ""), "design_ref": c["design"]},
             "level_note": c["note"],
             "technique": c.get("technique", TECH),
         })
